@@ -60,6 +60,14 @@ pub enum Error {
     /// missing abstract syntax to begin negotiation
     MissingAbstractSyntax { backtrace: Backtrace },
 
+    /// too many presentation contexts to propose in a single association
+    #[snafu(display(
+        "too many presentation contexts to propose ({}, the maximum is 128)",
+        count
+    ))]
+    #[non_exhaustive]
+    TooManyPresentationContexts { count: usize, backtrace: Backtrace },
+
     /// could not convert to socket address
     ToAddress {
         source: std::io::Error,
